@@ -74,6 +74,18 @@ def with_padding(msg, plen, where="end"):
     return join_hello(prefix, exts)
 
 
+def with_ech_sizes(msg, enc_len, pay_len):
+    """The hello with the enc and payload fields of its (outer) ECH extension replaced by fillers of the given sizes."""
+    prefix, exts = split_hello(msg)
+    out = []
+    for t, b in exts:
+        if t == 65037 and len(b) >= 10 and b[0] == 0:
+            b = bytes(b[:6]) + enc_len.to_bytes(2, "big") + bytes((0x40 + i * 7) % 256 for i in range(enc_len)) \
+                + pay_len.to_bytes(2, "big") + bytes((0x90 + i * 5) % 256 for i in range(pay_len))
+        out.append((t, b))
+    return join_hello(prefix, out)
+
+
 def ext_types(msg):
     return [t for t, _ in split_hello(msg)[1]]
 
